@@ -89,6 +89,7 @@ def gen_cases(ctx):
                "seed": rng.getrandbits(30), "phantom": rng.random() < 0.85,
                "burst": rng.choice([1, 1, 2, 3])}
     yield from gen_followed_by_invalid(ctx)
+    yield from gen_fragment_pairs(ctx)
     # systematic: every type x a few lengths, for self-addressed and routed frames, master & node
     for role in ("master3", "net", "meshnm_connected", "router"):
         for dcls in ("self", "child", "parentside", "self/own-origin"):
@@ -129,6 +130,26 @@ def gen_followed_by_invalid(ctx):
         for k in range(0, len(frames), 64):
             yield {"part": "frames", "role": role, "level": 0 if role.startswith("master") else 2,
                    "frames": frames[k:k + 64], "seed": 77 + k, "phantom": True, "burst": 2}
+
+
+def gen_fragment_pairs(ctx):
+    """well-formed FIRST fragments followed by LAST fragments whose reserved byte (the original
+    message type) takes system values - 131 NETWORK_EXT_DATA is handed over specially - and by
+    stray MORE/LAST fragments; reassembly must never raise or make the node transmit"""
+    for role in ("net", "meshnm_connected", "master3", "router"):
+        frames = []
+        for k, last in enumerate((131, 0, 1, 65, 127, 128, 148, 150, 193, 195, 255)):
+            fid = 500 + k
+            frames.append({"to": None, "dcls": "self", "ocls": "valid", "type": 148, "len": 24, "reserved": 2,
+                           "id": fid, "pipe": 2, "fixed_origin": 0o5})
+            frames.append({"to": None, "dcls": "self", "ocls": "valid", "type": 150, "len": 5, "reserved": last,
+                           "id": fid, "pipe": 2, "fixed_origin": 0o5})
+            frames.append({"to": None, "dcls": "self", "ocls": "valid", "type": 149, "len": 24, "reserved": last,
+                           "id": fid + 50, "pipe": 2, "fixed_origin": 0o5})
+            frames.append({"to": None, "dcls": "self", "ocls": "valid", "type": 150, "len": 0, "reserved": last,
+                           "id": fid + 50, "pipe": 2, "fixed_origin": 0o5})
+        yield {"part": "frames", "role": role, "level": 0 if role.startswith("master") else 2,
+               "frames": frames, "seed": 31, "phantom": True, "burst": 2}
 
 
 def make_node(rig, role, level, seed):
@@ -204,6 +225,8 @@ def build(fr, me, rng):
     oc = fr["ocls"]
     frm = {"valid": rng.choice([0o2, 0o15, 0o5, 0o342, 0o1]), "default": 0o4444,
            "invalid": rng.choice([0o7, 0o60, 0x1FFF, 0o7777, 0xFFFF]), "self": me}[oc]
+    if "fixed_origin" in fr:
+        frm = fr["fixed_origin"]  # fragments of one message come from one origin
     body = bytes((fr["id"] + i) & 0xFF for i in range(fr["len"]))
     raw = bytes([frm & 0xFF, (frm >> 8) & 0xFF, to & 0xFF, (to >> 8) & 0xFF, fr["id"] & 0xFF,
                  (fr["id"] >> 8) & 0xFF, fr["type"], fr["reserved"]]) + body
